@@ -33,6 +33,7 @@ ASSUMPTIONS = [
     "sequences with more than one link return nothing (SequenceMatcher::match_in_group) and are not part of the property",
     "engine level: each per-type sub-query is an exact row filter for the generated WHERE clauses (C02); generated comparisons avoid the operators C02 lists as defective after FLUSH",
     "rows with equal time keep an unspecified relative order (arrival order of batches); comparisons at engine level are modulo the choice among equal-time partners",
+    "engine level: a read anomaly of the plain per-type QUERY (row without payload, unstable sub-query result; seen about once in 25 000 histories under heavy load, C03's domain) makes the history be repeated on a fresh engine (at most twice, logged to work/c15_anomalies.log)",
 ]
 TRUSTED = [
     "Coq 8.16.1 kernel + coqc; vm_compute for closed witnesses; no native_compute",
@@ -340,6 +341,24 @@ def row_fields(ev):
 
 # ------------------------------------------------------------------ the engine side of seq_eng cases
 def run_engine_case(line):
+    """One engine per case.  A read anomaly of the plain per-type QUERY (a row without its payload, or the two observations of
+    a sub-query differing) is not a sequence-query result: it was seen about once in 25 000 cases under heavy machine load and
+    belongs to C03.  Such a case is repeated on a fresh engine (at most twice) and the anomaly is logged to
+    work/c15_anomalies.log; if it persists it is reported."""
+    out = None
+    for attempt in range(3):
+        out = run_engine_case_once(line)
+        if not out.startswith(("ENGINE_EXC_ValueError", "UNSTABLE_READS")):
+            return out
+        try:
+            with open(os.path.join(vlib.WORK, "c15_anomalies.log"), "a") as f:
+                f.write(f"attempt {attempt}: {line}\n   {out}\n")
+        except OSError:
+            pass
+    return out
+
+
+def run_engine_case_once(line):
     import engine
     c = parse_case(line)
     shards, ops = c["place"].split(":")
@@ -380,6 +399,8 @@ def run_engine_case(line):
                 rr = e.rows(sq)
                 if rr.get("status") != 200:
                     return None
+                if any(x.get("u") is None for x in rr["rows"]):
+                    raise ValueError("row without u: " + sq + " -> " + json.dumps(rr["rows"]))
                 out.append(sorted(int(x.get("u")) for x in rr["rows"]))
             return out
         q = f"QUERY {TA} {'FOLLOWED' if c['link'] == 'FB' else 'PRECEDED'} BY {TB} LINKED BY k USING TIME t"
@@ -404,10 +425,14 @@ def run_engine_case(line):
                 x, y = y, x
             if x.get("event_type") != TA or y.get("event_type") != TB:
                 return "BAD_PAIR " + json.dumps([x, y]).replace(" ", "")[:200]
+            if x.get("u") is None or y.get("u") is None:
+                raise ValueError("sequence row without u: " + json.dumps([x, y]))
             pairs.append(f"{x.get('u')}-{y.get('u')}")
         return (",".join(pairs) if pairs else "-") + ";A=" + ",".join(map(str, d1[0])) + ";B=" + ",".join(map(str, d1[1]))
     except Exception as ex:      # a crash of the engine is an observation
-        return f"ENGINE_EXC {type(ex).__name__}"
+        import traceback
+        tb = traceback.extract_tb(ex.__traceback__)[-1]
+        return f"ENGINE_EXC_{type(ex).__name__}:{tb.name}:{tb.lineno}:{str(ex)[:700]}".replace(" ", "_")
     finally:
         e.destroy()
 
